@@ -39,6 +39,7 @@ _real_urandom = os.urandom
 _real_input = builtins.input
 
 ACTIVE = None  # the Sim of the run being executed in this interpreter
+ENV_NAMES_SEEN = set()  # environment variables evo's own code asked for
 _runs_since_gc = 0
 
 
@@ -142,6 +143,27 @@ def install_patches():
     sys.unraisablehook = hook
     threading.excepthook = lambda args: None
     sys.meta_path.insert(0, _EvoFinder())
+
+    # which environment variables does evo's own code look at?  (discovered
+    # names become part of the fault / configuration space of a run)
+    real_getitem = os._Environ.__getitem__
+    evo_dir = os.path.join(REPO_ROOT, "evo") + os.sep
+
+    def spy_getitem(self, key):
+        if current_vp() is not None and isinstance(key, str):
+            # the caller proper: skip the wrappers of the standard library
+            # (os.getenv, Mapping.get / __contains__), nothing else - what a
+            # third-party library asks for on evo's behalf is its business
+            f = sys._getframe(1)
+            while f is not None and f.f_code.co_filename.endswith(
+                    ("/os.py", "/_collections_abc.py", "<frozen os>",
+                     "<frozen _collections_abc>")):
+                f = f.f_back
+            if f is not None and f.f_code.co_filename.startswith(evo_dir):
+                ENV_NAMES_SEEN.add(key)
+        return real_getitem(self, key)
+
+    os._Environ.__getitem__ = spy_getitem
 
 
 # ---------------------------------------------------------------------------
@@ -857,7 +879,17 @@ def run_command(sim, vp, cmd, res):
         # an environment step performed by 'the user' (not an evo process)
         cmd_env(sim, cmd)
         return
+    rel = cmd.get("release")
     for name in PRELOAD_START:
+        if rel and name == "evo.tools.settings":
+            # this process is an OLDER release of evo: its version string and
+            # the parameters that did not exist yet (the code is today's)
+            sys.modules["evo"].__version__ = rel["version"]
+            tmpl = sys.modules["evo.tools.settings_template"]
+            for k in rel.get("without", ()):
+                tmpl.DEFAULT_SETTINGS_DICT.pop(k, None)
+                tmpl.DEFAULT_SETTINGS_DICT_DOC.pop(k, None)
+            sim.probe("process_of_older_release")
         load_module(name)
     settings = sys.modules["evo.tools.settings"]
     if kind == "start":
